@@ -16,6 +16,14 @@
 (*           what a real receiver (DecodeToReceiver + NewReceiver) fed with *)
 (*           exactly those transmissions stored per file, recvErr its       *)
 (*           result.                                                        *)
+(*           files[k].missing = the sender cannot open that path.  wire     *)
+(*           entries are [done, op, err] as an independent ProtobufDecoder  *)
+(*           reads them from the byte stream a real ProtobufEncoder wrote.  *)
+(*  Seq      in = {calls:[{base,target,bs,md,kind,failAt,mode}]}: the calls *)
+(*           run one after the other on ONE rsync.Engine (BytesSignature,   *)
+(*           Deltify or DeltifyBytes, PatchBytes); outs[k] = what call k    *)
+(*           returned and delivered.  Every call is judged like a Delta /   *)
+(*           Fault record of its own: what happened before must not matter. *)
 (*  Begin/End  the driver's claim to enumerate the bounded domain of length *)
 (*           L completely; checked here (membership, strict order, count).  *)
 (*                                                                          *)
@@ -64,10 +72,28 @@ FaultFails(i, r) ==
       C20_FailureReported(r.nfailed, r.err, r.in.base, r.in.target, Bs(r), r.delivered))
 TransmitFails(i, r) ==
        Chk(Want, i, "C20_TransmitReported", C20_TransmitReported(r.nfailed, r.err, r.in.files, r.wire))
-    \o Chk(Want, i, "C20_ReceiverObtained",
-           (r.nfailed > 0 /\ r.err = "") =>
+    \o Chk(Want, i, "C20_CleanTransmitDelivers", C20_CleanTransmitDelivers(r.nfailed, r.err, r.in.files, r.wire))
+    \o Chk(Want, i, "C20_ReceiverObtained",       \* the real receiver's view, whenever the sender reports success
+           r.err = "" =>
               /\ r.recvErr = "" /\ Len(r.sunk) = Len(r.in.files)
-              /\ \A k \in DOMAIN r.in.files : r.sunk[k] = r.in.files[k].target)
+              /\ \A k \in DOMAIN r.in.files : r.in.files[k].missing \/ r.sunk[k] = r.in.files[k].target)
+
+\* a sequence of calls on one engine: call k alone decides what call k may emit
+CallBs(cin, out) == IF cin.bs = 0 THEN out.sig.bs ELSE cin.bs
+Clean(out) == out.nfailed = 0
+SeqFails(i, r) ==
+  LET K == DOMAIN r.in.calls IN
+       Chk(Want, i, "C19_Reconstructs", \A k \in K : Clean(r.outs[k]) =>
+             C19_Reconstructs(r.in.calls[k].base, r.in.calls[k].target, CallBs(r.in.calls[k], r.outs[k]), r.outs[k].ops))
+    \o Chk(Want, i, "C19_RealPatchExact", \A k \in K : Clean(r.outs[k]) =>
+             r.outs[k].err = "" /\ r.outs[k].patchErr = "" /\ r.outs[k].patched = r.in.calls[k].target)
+    \o Chk(Want, i, "C19_WellFormed", \A k \in K : Clean(r.outs[k]) =>
+             C19_WellFormed(r.in.calls[k].base, CallBs(r.in.calls[k], r.outs[k]), r.in.calls[k].md, r.outs[k].ops))
+    \o Chk(Want, i, "C19_UnchangedNoLiterals", \A k \in K : Clean(r.outs[k]) =>
+             C19_UnchangedNoLiterals(r.in.calls[k].base, r.in.calls[k].target, r.outs[k].ops))
+    \o Chk(Want, i, "C20_FailureReported", \A k \in K :
+             C20_FailureReported(r.outs[k].nfailed, r.outs[k].err, r.in.calls[k].base, r.in.calls[k].target,
+                                 CallBs(r.in.calls[k], r.outs[k]), r.outs[k].ops))
 
 IsCase(r) == r.ev \in {"Delta", "Fault", "Transmit"}
 IsEx(r) == IsCase(r) /\ r.shape = "ex"
@@ -75,6 +101,7 @@ RecFails(i, r) ==
   CASE r.ev = "Delta" -> DeltaFails(i, r)
     [] r.ev = "Fault" -> FaultFails(i, r)
     [] r.ev = "Transmit" -> TransmitFails(i, r)
+    [] r.ev = "Seq" -> SeqFails(i, r)
     [] r.ev = "Begin" -> <<>>
     [] r.ev = "End" -> (IF sawBegin /\ r.what = "Delta" /\ nex # ExpectedDeltas(r.L)
                         THEN <<Fail(i, "DriverDomainComplete")>> ELSE <<>>)
@@ -87,13 +114,20 @@ DomainFails(i, r) ==
 \* ---- conformance with the model's own run (never a verdict) ---------------
 Conf == "Conforms" \in Want
 Drift(r) ==
-  IF ~Conf \/ ~IsEx(r) THEN 0
+  IF ~Conf \/ ~(IsEx(r) \/ r.ev = "Seq") THEN 0
   ELSE IF r.ev = "Delta"
   THEN (IF r.sig = SigShape(r.in.base, r.in.bs)
            /\ r.ops = ModelRun(r.in.base, r.in.target, r.in.bs, r.in.md, 0, "none").delivered THEN 0 ELSE 1)
   ELSE IF r.ev = "Fault"
   THEN LET m == ModelRun(r.in.base, r.in.target, r.in.bs, r.in.md, r.in.failAt, r.in.mode) IN
        (IF r.delivered = m.delivered /\ r.calls = m.calls /\ r.nfailed = m.nfailed /\ ((r.err = "") <=> (m.err = ""))
+        THEN 0 ELSE 1)
+  ELSE IF r.ev = "Seq" /\ r.shape = "small"      \* every call = the model's run of that call on a fresh engine
+  THEN (IF \A k \in DOMAIN r.in.calls :
+             LET cin == r.in.calls[k]
+                 m == ModelRun(cin.base, cin.target, cin.bs, cin.md, cin.failAt,
+                               IF cin.mode = "none" THEN "once" ELSE cin.mode) IN
+             r.outs[k].ops = m.delivered /\ r.outs[k].nfailed = m.nfailed /\ ((r.outs[k].err = "") <=> (m.err = ""))
         THEN 0 ELSE 1)
   ELSE 0
 
